@@ -40,6 +40,18 @@ def _specs():
     add("AQUA/IMU", "ga", lambda F, g, a, m, P: F.AQUA(a, gyr=g, **P.get("aqua", {})).Q)
     add("AQUA/MARG", "gam", lambda F, g, a, m, P: F.AQUA(a, m, g, **P.get("aqua", {})).Q)
     add("AQUA/MARG/adaptive", "gam", lambda F, g, a, m, P: F.AQUA(a, m, g, adaptive=True, **P.get("aqua", {})).Q)
+    # an initial attitude given by the caller: exactly unit, or unit only to the four decimals it was typed with (the constructors accept it)
+    def q0_of(P):
+        q = np.array(P.get("q0", [0.7071, 0.0, 0.7071, 0.0]), float)
+        return q
+    add("Madgwick/IMU/q0", "ga", lambda F, g, a, m, P: F.Madgwick(g, a, q0=q0_of(P), **P.get("madgwick", {})).Q)
+    add("Mahony/IMU/q0", "ga", lambda F, g, a, m, P: F.Mahony(g, a, q0=q0_of(P), **P.get("mahony", {})).Q)
+    add("Mahony/MARG/q0", "gam", lambda F, g, a, m, P: F.Mahony(g, a, m, q0=q0_of(P), **P.get("mahony", {})).Q)
+    add("EKF/MARG/q0", "gam", lambda F, g, a, m, P: F.EKF(g, a, m, q0=q0_of(P), **P.get("ekf", {}), **P.get("ekf_marg", {})).Q)
+    add("AQUA/MARG/q0", "gam", lambda F, g, a, m, P: F.AQUA(a, m, g, q0=q0_of(P), **P.get("aqua", {})).Q)
+    add("AQUA/IMU/q0", "ga", lambda F, g, a, m, P: F.AQUA(a, gyr=g, q0=q0_of(P), **P.get("aqua", {})).Q)
+    add("ROLEQ/q0", "gam", lambda F, g, a, m, P: F.ROLEQ(g, a, m, q0=q0_of(P), **P.get("roleq", {})).Q)
+    add("AngularRate/q0", "g", lambda F, g, a, m, P: F.AngularRate(g, q0=q0_of(P), **P.get("angular", {})).Q)
     add("Fourati", "gam", lambda F, g, a, m, P: F.Fourati(g, a, m, **P.get("fourati", {})).Q)
     for fr in ("NED", "ENU"):
         add("ROLEQ/" + fr, "gam", lambda F, g, a, m, P, fr=fr: F.ROLEQ(g, a, m, frame=fr, **P.get("roleq", {})).Q)
@@ -202,10 +214,17 @@ def make_history(rng, kind, n, psi=None):
 
 def make_params(rng, default):
     if default:
-        return {}
+        return {}      # (the /q0 routes then use [0.7071, 0, 0.7071, 0], the value of the class docstrings)
     fr = gens.logu(rng, 1.0, 2000.0)
     dip = float(rng.uniform(-80, 80))
-    return {
+    q0 = gens.unit(rng)
+    if rng.random() < 0.7:
+        for dec_ in (int(rng.integers(4, 7)), 6, 7):    # typed with 4-7 decimals: unit only to ~1e-5, yet inside the constructors' np.allclose(norm, 1)
+            qr = np.round(q0, dec_)
+            if abs(np.linalg.norm(qr) - 1.0) < 8e-6:
+                q0 = qr
+                break
+    return {"q0": q0,
         "madgwick": {"frequency": fr, "gain": gens.logu(rng, 1e-3, 10)}, "mahony": {"frequency": fr, "k_P": gens.logu(rng, 1e-2, 50), "k_I": gens.logu(rng, 1e-3, 5)},
         "ekf": {"frequency": fr, "noises": [gens.logu(rng, 1e-4, 1), gens.logu(rng, 1e-4, 1), gens.logu(rng, 1e-4, 1)]}, "ekf_marg": {"magnetic_ref": dip},
         "ukf": {"frequency": fr}, "aqua": {"frequency": fr, "alpha": gens.logu(rng, 1e-3, 1), "beta": gens.logu(rng, 1e-3, 1), "threshold": float(rng.uniform(0.5, 0.9999))},
